@@ -42,10 +42,11 @@ CLAIMED = {
                   "assignment leaves extent and content untouched (no write before the check on any raising path), that accepted "
                   "values are what is written and that extend writes right behind the old values; that `key in section` holds exactly for "
                   "the names / ids of its properties and child sections and `len(section)` counts its properties (both read the two "
-                  "backend groups, store untouched).",
+                  "backend groups, store untouched), and that `section[key]` for a key naming no property yields exactly the child "
+                  "section linked under it (KeyError iff there is none).",
              note="Trusted: h5py dataset resize/write/dtype primitives over the abstract store; numpy array construction as an "
                   "uninterpreted function; Property.create_new and the Property.values getter enter as assumed summaries; h5py "
-                  "accepts type-checked values; section[key] / section[key] = v / del section[key] / iteration order and persistence across reopen: bounded battery C10/bounded/c10 only.",
+                  "accepts type-checked values; the property branch of section[key], section[key] = v, del section[key], iteration order and persistence across reopen: bounded battery C10/bounded/c10 only.",
              ref="7 C10"),
  "C17": dict(text="Delegation only: deductive proof that File.flush() reaches h5py's flush on every path, that File.close() flushes "
                   "or closes (which flushes) on every path, and that the file-access property list nixio opens files with is the "
